@@ -253,8 +253,26 @@ func verifH_StopStates() {
 	}
 	stopReturned, gracefulReturned := false, false
 	idleWait := false
-	op := verifChoice("op", 3)
+	op := verifChoice("op", 4)
 	switch op {
+	case 3:
+		// GracefulStop is waiting for in-flight tunnels (another goroutine); Stop cuts them
+		verifGo("graceful", func() {
+			srv.GracefulStop()
+			gracefulReturned = true
+		})
+		verifDrain()
+		if k > 0 {
+			verifCover("stop-during-graceful")
+			verifAssert(!gracefulReturned, "C10.graceful-stop-waits-for-live-tunnels")
+		}
+		srv.Stop()
+		stopReturned = true
+		verifDrain()
+		verifAssert(gracefulReturned, "C04+C10.stop-releases-a-waiting-graceful-stop")
+		for _, s := range streams {
+			verifAssert(s.closeSends == 1, "C04+C10.stop-after-graceful-stop-half-closes-every-instance")
+		}
 	case 0:
 		srv.Stop()
 		stopReturned = true
